@@ -3,6 +3,7 @@ import itertools
 
 from pbt import refcodec, spec_table, strategies as S
 from pbt.lib import call, frame, make_method, method_class
+from pbt import entry
 from pbt.runner import Component, Violation
 
 PROPERTY_ID = 'C01'
@@ -64,6 +65,7 @@ def check(case):
         d = refcodec.agree(want, got, '%s.%s' % (dotted, f.name))
         if d:
             raise Violation('slot:%s:%s' % (f.type, d.kind), d)
+    entry.frame_entries(obj, ch, data, out)
 
 
 def _half(v, t):
